@@ -85,6 +85,33 @@ class Ctx(object):
             if d:
                 self.add_mismatch(rid, args, mv, iv, d)
 
+    def corr_values(self, name, rid, items, tol=core.TOL, functional=False):
+        """correspondence for routines that need a custom implementation driver:
+        items = [(model_args, impl_value_canonical, decode)] where decode maps the
+        parsed model value to something comparable with the implementation value"""
+        if not items:
+            return
+        self._functional = functional
+        mout = core.run_model([(rid, a) for a, _, _ in items])
+        for (a, iv, dec), mv in zip(items, mout):
+            self.corr_evals += 1
+            self.per_routine[name] = self.per_routine.get(name, 0) + 1
+            self.distinct.add(hash((rid, core.enc(a))) & 0xffffffffffff)
+            try:
+                mvd = core.fl(dec(mv) if dec else mv)
+                d = core.agree_ff(mvd, iv, tol)
+            except Exception as e:  # undecodable model value
+                d = "decode failed: %r" % (e,)
+                mvd = mv
+            if len(self.samples) < 3 and self.rng.random() < 0.02:
+                self.samples.append({"routine": name, "backend": self.backend, "args": core.enc(a)[:400]})
+            if d:
+                if len(self.mismatches) < self.max_report:
+                    self.mismatches.append({"kind": "correspondence", "routine": name, "rid": rid, "backend": self.backend,
+                                            "args": core.enc(a), "model": repr(mvd)[:400], "impl": repr(iv)[:400], "diff": d,
+                                            "functional": functional, "custom": True,
+                                            "shard": self.shard, "nshards": self.nshards})
+
     def add_mismatch(self, rid, args, mv, iv, d):
         if len(self.mismatches) < self.max_report:
             self.mismatches.append({
